@@ -255,8 +255,17 @@ func init() {
 					return facet.Failf("mark-invented", "Convert(%#v, %s) = %#v carries mark %q that the input did not carry", marked, in.C.Target, r1.val, m)
 				}
 			}
+			if f := memberInvention(marked, r1.val, ""); f != nil {
+				return f
+			}
 			return nil
 		},
+	})
+
+	facet.Register(facet.F[ReuseIn]{
+		Prop: "C04", Name: "convert/reuse", Quick: 40000, Thorough: 400000, Shards: 4,
+		Rule: "one conversion looked up for a (source type, target type) pair as in C08 and applied to 2..4 values of the source type in turn, each with or without mark placements at any depth; every application must behave like a fresh Convert of that value alone (same outcome, same unmarked result, same marks at the top and per member); non-trivial = a marked value is followed by an unmarked or differently marked one and both conversions succeeded",
+		Gen:  genReuse, Check: checkReuse,
 	})
 
 	for _, fam := range stdreg.Families() {
@@ -271,4 +280,164 @@ func init() {
 			Gen:  genFn(fam), Check: checkFn,
 		})
 	}
+}
+
+// memberInvention applies "no result carries a mark that no input carried" to
+// the members of a conversion result: where input and result are sequences of
+// the same length (list/tuple) or mappings (map/object), member k of the
+// result is the conversion of member k of the input (docs/convert.md: element
+// by element), so it may only carry marks found in or above that member.
+func memberInvention(in, out cty.Value, path string) *facet.Failure {
+	inAbove := topMarks(in)
+	in, _ = in.Unmark()
+	out, _ = out.Unmark()
+	if !in.IsKnown() || !out.IsKnown() || in.IsNull() || out.IsNull() {
+		return nil
+	}
+	it, ot := in.Type(), out.Type()
+	seq := func(t cty.Type) bool { return t.IsListType() || t.IsTupleType() }
+	mapping := func(t cty.Type) bool { return t.IsMapType() || t.IsObjectType() }
+	check := func(k string, iv, ov cty.Value) *facet.Failure {
+		allowed := deepMarks(iv)
+		for m := range inAbove {
+			allowed[m] = true
+		}
+		for m := range deepMarks(ov) {
+			if !allowed[m] {
+				return facet.Failf("mark-invented-member", "member %s%s of the conversion result %#v carries mark %q, which the corresponding input member %#v does not carry", path, k, ov, m, iv)
+			}
+		}
+		return memberInvention(iv, ov, path+k)
+	}
+	switch {
+	case seq(it) && seq(ot) && in.LengthInt() == out.LengthInt():
+		ivs, ovs := in.AsValueSlice(), out.AsValueSlice()
+		for i := range ivs {
+			if f := check(fmt.Sprintf("[%d]", i), ivs[i], ovs[i]); f != nil {
+				return f
+			}
+		}
+	case mapping(it) && mapping(ot):
+		ivs, ovs := in.AsValueMap(), out.AsValueMap()
+		for k, ov := range ovs {
+			if iv, ok := ivs[k]; ok {
+				if f := check(fmt.Sprintf("[%q]", k), iv, ov); f != nil {
+					return f
+				}
+			}
+		}
+	}
+	return nil
+}
+
+// ReuseIn is the input of convert/reuse: one (source, target) type pair and
+// several values of the source type, some of them carrying marks.
+type ReuseIn struct {
+	S      spec.T   `json:"s"`
+	Target spec.T   `json:"target"`
+	Unsafe bool     `json:"unsafe"`
+	Vals   []spec.V `json:"vals"`
+}
+
+func genReuse(t *rapid.T) ReuseIn {
+	cs := convgen.Pair(convgen.Opts{Val: gen.ValOpts{Null: true, Unknown: true, Simple: true}}).Draw(t, "case")
+	in := ReuseIn{S: cs.V.StripMarks().Retype().T, Target: cs.Target, Unsafe: rapid.IntRange(0, 3).Draw(t, "unsafe") != 0}
+	n := rapid.IntRange(2, 4).Draw(t, "nvals")
+	for i := 0; i < n; i++ {
+		var v spec.V
+		if i == 0 {
+			v = cs.V.StripMarks()
+		} else if rapid.IntRange(0, 2).Draw(t, "samevalue") == 0 {
+			v = in.Vals[0].StripMarks()
+		} else {
+			v = gen.Value(in.S, gen.ValOpts{Null: true, Unknown: true, Simple: true, MaxElems: 3}).Draw(t, "val")
+		}
+		if rapid.IntRange(0, 2).Draw(t, "mark") != 0 {
+			v, _ = gen.PlaceMarks(t, v, false)
+		}
+		in.Vals = append(in.Vals, v)
+	}
+	return in
+}
+
+func checkReuse(c *facet.Ctx, in ReuseIn) error {
+	st, tt := in.S.Cty(), in.Target.Cty()
+	var conv convert.Conversion
+	func() {
+		defer func() { recover() }()
+		if in.Unsafe {
+			conv = convert.GetConversionUnsafe(st, tt)
+		} else {
+			conv = convert.GetConversion(st, tt)
+		}
+	}()
+	if conv == nil {
+		c.Label("no-conversion")
+		c.Skip()
+		return nil
+	}
+	apply := func(f func() (cty.Value, error)) (o convOut) {
+		defer func() {
+			if r := recover(); r != nil {
+				o = convOut{panic: fmt.Sprint(r)}
+			}
+		}()
+		v, err := f()
+		return convOut{val: v, err: err}
+	}
+	prevMarks := ""
+	for i, vs := range in.Vals {
+		v, err := spec.Build(vs)
+		if err != nil {
+			return facet.Failf("harness-build", "%v", err)
+		}
+		if !v.Type().Equals(st) {
+			// a value whose own type differs from the looked-up source type
+			// (placeholders instantiated differently): not a valid subject
+			c.Label("value-of-another-type")
+			continue
+		}
+		reused := apply(func() (cty.Value, error) { return conv(v) })
+		fresh := apply(func() (cty.Value, error) {
+			var fc convert.Conversion
+			if in.Unsafe {
+				fc = convert.GetConversionUnsafe(st, tt)
+			} else {
+				fc = convert.GetConversion(st, tt)
+			}
+			return fc(v)
+		})
+		if reused.class() != fresh.class() {
+			return facet.Failf("reuse-outcome-differs", "application %d of one looked-up conversion %s -> %s to %#v gave %s (%v%s), a freshly looked-up conversion gives %s (%v%s)",
+				i+1, in.S, in.Target, v, reused.class(), reused.err, reused.panic, fresh.class(), fresh.err, fresh.panic)
+		}
+		marks := keys(deepMarks(v))
+		if reused.class() == "ok" {
+			if i > 0 && prevMarks != "{}" && marks != prevMarks {
+				c.NonTrivial()
+			}
+			if !reused.val.RawEquals(fresh.val) {
+				return facet.Failf("reuse-result-differs", "application %d of one looked-up conversion %s -> %s to %#v = %#v, a freshly looked-up conversion gives %#v",
+					i+1, in.S, in.Target, v, reused.val, fresh.val)
+			}
+			all := deepMarks(v)
+			for m := range deepMarks(reused.val) {
+				if !all[m] {
+					return facet.Failf("mark-invented", "application %d of one looked-up conversion %s -> %s to %#v = %#v carries mark %q that this input did not carry (an earlier input did)",
+						i+1, in.S, in.Target, v, reused.val, m)
+				}
+			}
+			got := topMarks(reused.val)
+			for m := range topMarks(v) {
+				if !got[m] {
+					return facet.Failf("mark-lost", "application %d of one looked-up conversion to %#v = %#v lost top-level mark %q", i+1, v, reused.val, m)
+				}
+			}
+			if f := memberInvention(v, reused.val, ""); f != nil {
+				return f
+			}
+		}
+		prevMarks = marks
+	}
+	return nil
 }
